@@ -49,6 +49,10 @@ def make_arg(ptype, name):
         return Opt(dsl.fresh_bool(name + "#none"), dsl.fresh_float(name))
     if ptype == "optint":
         return Opt(dsl.fresh_bool(name + "#none"), dsl.fresh_int(name))
+    if ptype == "fn":
+        from .heap import FnV, Fn
+
+        return FnV(z3.Const(fresh_name(name), Fn))
     if ptype == "optdata":
         from .heap import DataV
 
